@@ -218,7 +218,7 @@ def subst(t, m):
 
 
 def has_param(t):
-    if not isinstance(t, tuple):
+    if not isinstance(t, tuple) or not t:
         return False
     if t[0] == "param":
         return True
@@ -227,7 +227,16 @@ def has_param(t):
     if t[0] == "array":
         if isinstance(t[2], tuple) and t[2][0] == "cparam":
             return True
-    return any(has_param(x) if isinstance(x, tuple) else False for x in t[1:]) if t[0] != "prim" else False
+    if t[0] == "prim":
+        return False
+    for x in t[1:]:
+        if isinstance(x, tuple):
+            if x and isinstance(x[0], tuple):
+                if any(has_param(y) for y in x):
+                    return True
+            elif has_param(x):
+                return True
+    return False
 
 
 def strip_refs(t):
@@ -325,7 +334,7 @@ class Universe:
         c = Crate(path)
         self.crates[c.name] = c
         for dj in c.raw_defs:
-            self.defs.setdefault(dj["id"], dj)
+            self.defs.setdefault(dj["id"], (c, dj))
         for bj in c.j["bodies"]:
             b = Body(c, bj)
             self.bodies[b.id] = b
@@ -358,6 +367,24 @@ class Universe:
 
     def body(self, def_id):
         return self.bodies.get(def_id)
+
+    def trait_item_of(self, def_id):
+        """Def id of the trait item that `def_id` implements (or def_id itself when it is a
+        trait item); None when it is not an associated item of a trait."""
+        ent = self.defs.get(def_id)
+        if ent is None:
+            return None
+        c, dj = ent
+        ti = dj.get("trait_item")
+        if ti is not None:
+            return c.raw_defs[ti]["id"]
+        if dj.get("parent_kind") == "Trait":
+            return def_id
+        return None
+
+    def def_json(self, def_id):
+        ent = self.defs.get(def_id)
+        return ent[1] if ent else None
 
 
 def load_universe(paths):
